@@ -112,6 +112,44 @@ def c02_require(agg):
     return need
 
 
+# ------------------------------------------------------------------ C19
+
+def c19_plan(tier, seed):
+    out = []
+    nb = 5 if tier == "quick" else 15
+    for v in ("os-debug", "memfd-debug", "inproc-debug"):
+        for j in jobs(v, "c19", nb, None, {"programs": 140 if tier == "quick" else 2200}, timeout=1500):
+            out.append(j)
+    return out
+
+
+def c19_post(agg, results, workdir, inconclusive):
+    """Differential step: the normalised trace of every program must be identical in all builds."""
+    by_prog = {}
+    for job, recs, rc, err, wall in results:
+        for r in recs:
+            if r.get("t") == "prog":
+                by_prog.setdefault(r["prog"], {})[job["variant"]] = (r["trace"], r["ops"], r["n"], job)
+    compared = 0
+    disagreements = 0
+    for prog, d in sorted(by_prog.items()):
+        if len(d) < 3:
+            continue
+        compared += 1
+        traces = {v: t[0] for v, t in d.items()}
+        if len(set(traces.values())) > 1:
+            disagreements += 1
+            job = list(d.values())[0][3]
+            agg["violations"].append({"t": "viol", "sig": "C19:transports-disagree",
+                                      "detail": {"program": prog, "trace_hashes": traces, "steps": {v: t[2] for v, t in d.items()}},
+                                      "replay": {"family": "c19", "seed": job["seed"], "batch": job["batch"], "nbatch": job["nbatch"],
+                                                 "tier": job["tier"], "case": prog, "variant": "os-debug", "opts": job.get("opts", {}), "env": {}}})
+    agg["stats"]["programs_compared_across_3_builds"] = compared
+    agg["stats"]["trace_disagreements"] = disagreements
+    if compared == 0:
+        inconclusive.append("no program was executed on all three builds")
+
+
 HOOKS = {
     "guard": "ipc_channel_verif",
     "enable": "no source hooks are used: every monitor observes the public API, the libc boundary (LD_PRELOAD interposer), /proc or sanitizer instrumentation; checks build /repo unmodified",
@@ -127,6 +165,22 @@ NOTES = ("Runtime monitoring and sanitizers. ./check <id> rebuilds the harness (
 NOT_APPLICABLE = {}
 
 PROPS = {
+    "C19": {
+        "plan": c19_plan,
+        "post": c19_post,
+        "level": "translation_validation",
+        "level_text": "Differential execution: seeded single-threaded programs (<=60 operations, <=6 live channels) are generated from an executable "
+                      "ideal-FIFO model with handle counting; every step's result on the OS transport, the memfd build and the in-process transport "
+                      "is compared with the model's prediction, and the normalised traces of the three builds are compared with each other.",
+        "level_note": "Only programs whose every outcome the model defines are generated (no blocking call that would block, one connect per "
+                      "server, select only with pending events, <=40 queued messages per channel); error payloads are normalised to kinds.",
+        "technique": "runtime monitoring: model-based differential testing - generated programs executed on three transports against an executable reference model",
+        "rule": "program = seeded sequence of <=60 operations (channel, clone, drop sender/receiver, send with embedded senders/receivers/regions, recv, "
+                "try_recv, try_recv_timeout, receiver sets with drain-by-select, one-shot servers with connect/accept/drop, regions); distinct = hash of "
+                "the generated operation list; non-trivial = at least one endpoint transfer or handle drop",
+        "assumptions": ["release of in-flight descriptors when their carrier is closed is synchronous in this kernel (observed, see DESIGN 1.1)"],
+        "extra_coverage": lambda agg: {"programs": agg["evaluations"], "disagreements_checked": agg["stats"].get("programs_compared_across_3_builds", 0)},
+    },
     "C02": {
         "plan": c02_plan,
         "level": "exploration",
